@@ -302,6 +302,8 @@ class ScriptGen:
     def item_loop(self):
         r = self.rng
         v = self.free_name()
+        if self.scalars and r.random() < 0.2:
+            v = r.choice(self.scalars)[0]          # shadows a variable declared earlier
         self.defs.append(v)
         t = r.choice(["int", "int", "int", "float"])
         if t == "int":
@@ -414,11 +416,11 @@ def plant_failure(rng, script, kind, pool):
     elif kind == "bad_cast":
         s["items"].insert(pos, [r.choice(["int zz = 1+2j", "float zz = 2j", "float zz = 1.0+1j*2"])])
     elif kind == "loop_value":
-        v = r.choice(pool)
+        v = r.choice(s["defs"]) if s["defs"] and r.random() < 0.5 else r.choice(pool)
         s["defs"].append(v)
         s["items"].insert(pos, ["for int %s in [0, 1, 0.5, 2]" % v, "    Vac | %s" % v])
     elif kind == "loop_body":
-        v = r.choice(pool)
+        v = r.choice(s["defs"]) if s["defs"] and r.random() < 0.5 else r.choice(pool)
         s["defs"].append(v)
         s["items"].insert(pos, ["for int %s in 0:3" % v, "    Sgate(%s) | %s" % (undefined, v)])
     elif kind == "undefined_idx":
@@ -529,4 +531,4 @@ def gen_lib(rng, cfg, name, nested=None):
             else:
                 body.append("%s | [%s]" % (nested["name"], ", ".join(map(str, ms))))
     r.shuffle(body)
-    return "\n".join(lines + body) + "\n", {"name": name, "modes": k, "params": params}
+    return "\n".join(lines + body) + "\n", {"name": name, "modes": k, "params": params, "mode_list": modes}
